@@ -37,6 +37,9 @@ def invoke(case, c, operands):
 def _invoke(case, c, operands):
     fn = case["fn"]
     be = case.get("big_endian", False)
+    if fn in ("add_sub_two_numbers", "add_subtract_with_compare", "add_sub2", "add_sub3", "add_div_mod", "add_sqrt", "add_equal") \
+            and gencommon.one_shot(case) and not case.get("alias") and not case.get("live_outputs"):
+        operands = [iter(list(o)) for o in operands]
     if fn == "add_sub_two_numbers":
         return {"res": le(A.add_sub_two_numbers(c, operands[0], operands[1], big_endian=be), be)}
     if fn == "add_subtract_with_compare":
